@@ -24,6 +24,11 @@
  *   smtp_rcpt             param 0: accepted; 1: filter says FILTER_DENIED_NOUSER; 2: remote, no MX; 3: remote, null MX
  *   smtp_from_inner       param 0: plain; 1: " SIZE=1" appended; 2: " AUTH=<>" appended (ESMTP)
  *   smtp_helo, smtp_quit  holes: heloname
+ *   tls_out               holes: the two texts (qsmtpd/starttls.c, static: called through a wrapper in replysites_tls.c); tls_err: no holes
+ *   smtp_data             the real smtp_data() with one accepted recipient and check_strict_rfc2822 set; the DATA content is made from
+ *                         <param>: 0 the header named by the hole twice; 1 no Date:; 2 no From:; 3 8-bit octet in the header; 4 8-bit
+ *                         octet in the body of a 7-bit message; 5 101 Received: lines; 6 a Delivered-To: line naming the recipient.
+ *                         The first buffer written is the 354 reply, the rest the error reply after the end of the data.
  *   smtp_ehlo             param bit 0: a server certificate is found (STARTTLS announced); holes: heloname [, auth list] [, size CRLF]
  */
 #include "hcommon.h"
@@ -56,19 +61,18 @@ static int h_poll(struct pollfd *p, nfds_t n, int t);
 #include <stralloc.h>
 
 /* ---------------------------------------------------------------- netio collaborators */
-SSL *ssl;
 int socketd = 5;
 static jmp_buf h_die;
 void dieerror(int e) { (void)e; longjmp(h_die, 1); }
 void log_write(int p, const char *s) { (void)p; (void)s; }
 void log_writen(int p, const char **s) { (void)p; (void)s; }
-int ssl_timeoutread(SSL *s, time_t t, char *b, const int l) { (void)s; (void)t; (void)b; (void)l; abort(); }
-int ssl_timeoutwrite(SSL *s, time_t t, const char *b, const int l) { (void)s; (void)t; (void)b; (void)l; abort(); }
 
 static unsigned char *r_stream; static size_t r_len, r_pos;
+static int r_hold;		/* the client sends its data only after a 3xx reply */
 static ssize_t h_write(int fd, const void *buf, size_t n)
 {
 	if (fd != socketd) abort();
+	if (n > 0 && *(const char *)buf == '3') r_hold = 0;
 	out_str(" ");
 	out_hex(buf, n);
 	return n;
@@ -77,7 +81,7 @@ static int h_poll(struct pollfd *p, nfds_t n, int t)
 {
 	(void)n; (void)t;
 	if (p->events & POLLOUT) { p->revents = POLLOUT; return 1; }
-	if (r_pos < r_len) { p->revents = POLLIN; return 1; }
+	if (r_pos < r_len && !r_hold) { p->revents = POLLIN; return 1; }
 	p->revents = 0;			/* nothing (more) from the client: data_pending() says no, net_read() times out and ends in dieerror() */
 	return 0;
 }
@@ -114,17 +118,24 @@ const char *blocktype[] = { NULL, "user", "domain", NULL, "global" };
 void freedata(void) { }
 static jmp_buf h_cleanup;
 void conn_cleanup(const int rc) { (void)rc; longjmp(h_cleanup, 1); }
-int tls_verify(void) { return 0; }
 void tarpit(void) { }
 int err_control(const char *a) { (void)a; return 0; }
 int err_control2(const char *a, const char *b) { (void)a; (void)b; return 0; }
 void logwhitelisted(const char *reason, const int t, const int u) { (void)reason; (void)t; (void)u; }
 int check_host(const char *a) { (void)a; return SPF_NONE; }
+/* the queue: the message goes nowhere, qmail-queue is not started */
+int queuefd_data = -1, queuefd_hdr = -1;
+int authhide;
+string msgidhost;
+int queue_init(void) { queuefd_data = open("/dev/null", O_WRONLY); return 0; }
+void queue_reset(void) { if (queuefd_data >= 0) close(queuefd_data); queuefd_data = -1; }
+int queue_envelope(const unsigned long s, const int c) { (void)s; (void)c; return 0; }
+int queue_result(void) { return 0; }
+int spfreceived(int fd, const int spf) { (void)fd; (void)spf; return 0; }
 
 static char *h_auth;		/* what smtp_authstring() returns (copied), or NULL */
 char *smtp_authstring(void) { return h_auth ? strdup(h_auth) : NULL; }
-static int h_havecert;
-int find_servercert(const char *p) { (void)p; return h_havecert ? 0 : 1; }
+static int h_havecert;		/* control/servercert.pem exists: the real find_servercert() finds it */
 
 /* ---------------------------------------------------------------- DNS stand-ins */
 static const unsigned char *h_txt; static size_t h_txtlen; static int h_hastxt;
@@ -182,7 +193,7 @@ static void put_file(const char *path, const unsigned char *p, size_t l, int lf)
 }
 static void clean_tree(void)
 {
-	static const char *files[] = { "u/dnsbl", "u/namebl", "u/nomail", "u/whitednsbl", "u/filterconf", NULL };
+	static const char *files[] = { "u/dnsbl", "u/namebl", "u/nomail", "u/whitednsbl", "u/filterconf", "control/servercert.pem", NULL };
 	for (int i = 0; files[i]; i++) unlink(files[i]);
 }
 
@@ -240,7 +251,7 @@ static void run_case(int nf, struct field *f)
 	rcpthosts = (char *)rh; rcpthsize = sizeof(rh) - 1;
 	relayclient = 0; rcptcount = 0; goodrcpt = 0; thisrecip = NULL; submission_mode = 0; databytes = 0;
 	globalconf = NULL; h_auth = NULL; h_havecert = 0; h_hastxt = 0; h_userexists = 0; h_mxresult = 0;
-	h_filterresult = FILTER_PASSED;
+	h_filterresult = FILTER_PASSED; r_hold = 0;
 	heloname.s = "mx.example.org"; heloname.len = strlen(heloname.s);
 	TAILQ_INIT(&head);
 	struct userconf ds;
@@ -277,7 +288,14 @@ static void run_case(int nf, struct field *f)
 		else if (is_name(&f[1], "smtp_noop")) (void)smtp_noop();
 		else if (is_name(&f[1], "smtp_rset")) { comstate = 0; (void)smtp_rset(); }
 		else out_str(" BADCASE");
-	} else if (op == 0xc1 && nf >= 3 && f[2].len == 1) {
+	} else if ((op == 0xc1 && nf >= 3 && f[2].len == 1) || (op == 0xc5 && nf >= 2 && f[1].len == 1)) {
+		struct field g[64];
+		if (op == 0xc5) {		/* c5 <param> <element>... = c1 smtp_data <param> <element>... */
+			if (nf > 60) { out_str(" BADCASE"); return; }
+			g[0] = f[0]; g[1].p = (unsigned char *)"smtp_data"; g[1].len = 9;
+			for (int i = 1; i < nf; i++) g[i + 1] = f[i];
+			f = g; nf++;
+		}
 		const int param = f[2].p[0];
 		nholes = 0;
 		for (int i = 3; i < nf; i++) {
@@ -347,6 +365,7 @@ static void run_case(int nf, struct field *f)
 			else if (is_name(&f[1], "smtp_quit")) { if (setjmp(h_cleanup) == 0) smtp_quit(); }
 			else {
 				h_havecert = param & 1;
+				if (h_havecert) put_file("control/servercert.pem", (const unsigned char *)"x", 1, 0);
 				unsetenv("TCPLOCALPORT");
 				for (int k = 1; k < nholes; k++) {
 					if (holes[k].cls == 'U') h_auth = cstr(holes[k].p, holes[k].len);
@@ -358,6 +377,43 @@ static void run_case(int nf, struct field *f)
 			}
 			free(xmitstat.helostr.s);
 			xmitstat.helostr.s = NULL;
+		} else if (is_name(&f[1], "tls_out")) {
+			extern int h_tls_out(const char *, const char *);
+			if (nholes != 2) { out_str(" BADCASE"); return; }
+			char *h1 = cstr(holes[1].p, holes[1].len);
+			(void)h_tls_out(h0, h1);
+			free(h1);
+		} else if (is_name(&f[1], "tls_err")) {
+			extern int h_tls_err(const char *);
+			(void)h_tls_err("harness");
+		} else if (is_name(&f[1], "smtp_data")) {
+			extern size_t maxbytes;
+			static struct recip rc1;
+			rc1.to.s = "user@example.org"; rc1.to.len = strlen(rc1.to.s); rc1.ok = 1;
+			TAILQ_INSERT_TAIL(&head, &rc1, entries);
+			goodrcpt = 1; maxbytes = (size_t)-1;
+			xmitstat.check2822 = 1; xmitstat.esmtp = 1; xmitstat.datatype = 0;
+			xmitstat.mailfrom.s = "sender@example.net"; xmitstat.mailfrom.len = strlen(xmitstat.mailfrom.s);
+			msgidhost = heloname;
+			char *d = malloc(8192 + (h0 ? strlen(h0) * 2 : 0)); d[0] = 0;
+			const char *ok = "Date: Thu, 1 Jan 2026 00:00:00 +0000\r\nFrom: a@example.net\r\n";
+			switch (param) {
+			case 0: if (!h0) { out_str(" BADCASE"); return; }
+				sprintf(d, "%s x\r\n%s y\r\n\r\nbody\r\n.\r\n", h0, h0); break;
+			case 1: strcpy(d, "From: a@example.net\r\n\r\nbody\r\n.\r\n"); break;
+			case 2: strcpy(d, "Date: Thu, 1 Jan 2026 00:00:00 +0000\r\n\r\nbody\r\n.\r\n"); break;
+			case 3: sprintf(d, "%sSubject: \xe4\r\n\r\nbody\r\n.\r\n", ok); break;
+			case 4: sprintf(d, "%s\r\nb\xe4" "dy\r\nmore\r\n.\r\n", ok); break;
+			case 5: strcpy(d, ok); for (int k = 0; k < 101; k++) strcat(d, "Received: from a by b\r\n"); strcat(d, "\r\nbody\r\n.\r\n"); break;
+			case 6: sprintf(d, "%sDelivered-To: user@example.org\r\n\r\nbody\r\n.\r\n", ok); break;
+			default: out_str(" BADCASE"); return;
+			}
+			r_stream = (unsigned char *)d; r_len = strlen(d); r_pos = 0; r_hold = 1;
+			linenlen = 0; linein.len = 0; linein.s = lineinbuf; timeout = 1;
+			(void)smtp_data();
+			TAILQ_INIT(&head);
+			r_stream = NULL; r_len = r_pos = 0;
+			free(d);
 		} else out_str(" BADCASE");
 		free(h0);
 	} else out_str(" BADCASE");
